@@ -13,14 +13,25 @@
          Crash/ControlMsgs.v with every get(..).unwrap(), slice, index, Option::unwrap, usize + and - as a
          possible Panic: for ALL body byte strings, both byte orders and all status values they return without
          Panic; and on well-formed bodies GET_LOG_INFO / GET_SOFTWARE_VERSION parsing gives back what was encoded;
+     (A'') the string helpers of src/utils/mod.rs that the text converters call for every line, modelled byte-exactly
+         in Crash/TextUtils.v (strings = UTF-8 byte lists; is_char_boundary, slicing, chars(), trim(), to_string,
+         format! padding, DltChar4::from_str, the tag -> apid map; every unwrap, slice, `end -= 1`, `4 - len`,
+         `iteration += 1`, `acc + 1` as a possible Panic; loops on fuel): get_4digit_str never panics and slices at a
+         char boundary; get_apid_for_tag, as repaired, returns for EVERY map and tag within 10000 turns of its loop,
+         unique unless all 10000 candidates are in use, stable for a repeated tag; the loop before fix 7a6b3d3 panics
+         (never returns) whenever the 10000 candidates of a tag are in use; the u32 counters before fix bf09881 overflow
+         for a tag of 2^32 underscores; hex_to_bytes never panics and its value is characterised exactly;
+     (A''') the time and length arithmetic of the asc and logcat converters as repaired (Crash/TextTime.v):
+         parse_signed_time_str / parse_time_str for every &str of the regexes' shape (digit strings of any length),
+         timestamp_dms_from, the date line, one CAN line (data slice, payload cut, u16 len), the GET_LOG_INFO len;
      (B) the no-panic / in-bounds theorems of the other properties' developments, re-exported below
          under C03_reexport_* names (framing parsers and reader loop C01, writer C02, argument iterator C18,
          time sort C10, file-transfer plugin incl. its allocation bound C17, remote dispatcher C15,
          low-mark reader C04, archive volume chain C20).
    What is only SEARCHED (harness/src/bin/c03.rs, isolated worker processes, whole chain): text rendering,
    control-message decoding, ECU/APID/CTID statistics, the non-verbose / SOME/IP / CAN / rewrite / muniic /
-   anonymize plugins, the ASC / logcat / generic-log converters, filters' regex engines, real allocation
-   behaviour.  u32 message counters are outside (bounded by the u32 message index, C01).
+   anonymize plugins, the rest of the ASC / logcat / generic-log converters (regex matching, chrono, the threadtime
+   format, CANFD lines), filters' regex engines, real allocation behaviour.  u32 message counters are outside (bounded by the u32 message index, C01).
 
    Ranges: [msg_ok B m] = reception time <= B and timestamp_us <= u32::MAX * 100; [lc_ok B L] = the range
    invariant; B is any bound with B + u32::MAX*100 + 60 s <= u64::MAX (instance: B = 2^63; the storage header
@@ -28,6 +39,8 @@
 From Coq Require Import List NArith Bool Lia.
 From AdltV Require Import Base.Res Base.MachInt Lifecycle.Model Crash.LifecycleChk Crash.LifecycleChkProofs.
 From AdltV Require Crash.ControlMsgs Crash.ControlMsgsProofs.
+From AdltV Require Crash.TextUtils Crash.TextUtilsProofs Crash.TextTime Crash.TextTimeProofs.
+From Coq Require Import ZArith.
 From AdltV Require Properties.C01 Properties.C02 Properties.C04 Properties.C10 Properties.C15 Properties.C17 Properties.C18 Properties.C20.
 Import ListNotations.
 Open Scope N_scope.
@@ -214,6 +227,175 @@ Proof.
   constructor; [|constructor]. unfold Crash.ControlMsgsProofs.wf_ctx. cbn. repeat split; try lia; eexists; reflexivity.
 Qed.
 
+(* ------------------------------------------------------------------ (A'') string helpers of src/utils/mod.rs *)
+Module TU := Crash.TextUtils.
+Module TUP := Crash.TextUtilsProofs.
+Module TT := Crash.TextTime.
+Module TTP := Crash.TextTimeProofs.
+
+(* get_4digit_str(a_str, iteration): for EVERY byte string (valid UTF-8 or not) and EVERY iteration: no panic; the
+   result is a_str (iteration 0), a_str + the zero-padded number (short a_str), or a prefix of a_str + the number where
+   the prefix `&a_str[0..end]` is cut at a char boundary end <= 3, end <= len -- the slice never panics *)
+Theorem C03_get_4digit_str_no_panic (s : TU.bytes) (it : N) :
+  exists r, TU.get_4digit_str s it = Ok r /\
+    ((it = 0 /\ r = s) \/
+     (it <> 0 /\ TU.blen s < 4 /\ r = s ++ TU.pad0 (4 - TU.blen s) (TU.dec it)) \/
+     (it <> 0 /\ exists e, e <= 3 /\ e <= TU.blen s /\ TU.is_char_boundary s e = true /\
+                         TU.str_slice s 0 e = Ok (firstn (N.to_nat e) s) /\ r = firstn (N.to_nat e) s ++ TU.dec it)).
+Proof. exact (TUP.get_4digit_str_spec s it). Qed.
+
+(* one turn of the loop: the candidate is computed without panic for every trimmed tag and iteration (the blank,
+   short, snake_case and CamelCase branches, the eager NoAs fallback) *)
+Theorem C03_apid_candidate_no_panic (t : TU.bytes) (it : N) :
+  TU.blen t <= usizemax -> exists a, TU.candidate t it = Ok a.
+Proof. exact (TUP.candidate_total t it). Qed.
+
+(* get_apid_for_tag as repaired (4e6600d, c5fa240, 7a6b3d3, bf09881): for EVERY map (any size, any content) and EVERY
+   tag: Ok (no Panic, the fuel 10001 is never exhausted), at an iteration <= 9999; a tag of the map keeps its apid; a
+   new tag gets a candidate of its trimmed form that no other tag uses -- unless iteration 9999 was reached -- and
+   every earlier candidate was in use *)
+Theorem C03_apid_for_tag_terminates (m : TU.amap) (tag : TU.bytes) : TU.blen tag <= usizemax ->
+  exists a it m', TU.get_apid_for_tag m tag = Ok (a, it, m') /\ it <= TU.LAST_ITERATION /\
+    (forall e, TU.map_get tag m = Some e -> a = e /\ it = 0 /\ m' = m) /\
+    (TU.map_get tag m = None ->
+       m' = TU.map_insert tag a m /\ TU.candidate (TU.trim tag) it = Ok a /\
+       (TU.values_contain m a = true -> it = TU.LAST_ITERATION) /\
+       (forall j b, j < it -> TU.candidate (TU.trim tag) j = Ok b -> TU.values_contain m b = true)).
+Proof. exact (TUP.get_apid_for_tag_ok m tag). Qed.
+
+(* the same tag asked twice gives the same apid (and no turn of the loop); other tags keep theirs *)
+Theorem C03_apid_for_tag_idempotent (m m' : TU.amap) (tag : TU.bytes) (a it : N) :
+  TU.get_apid_for_tag m tag = Ok (a, it, m') -> TU.get_apid_for_tag m' tag = Ok (a, 0, m').
+Proof. exact (TUP.get_apid_for_tag_idempotent m m' tag a it). Qed.
+Theorem C03_apid_for_tag_keeps_others (m m' : TU.amap) (tag other : TU.bytes) (a it : N) :
+  TU.get_apid_for_tag m tag = Ok (a, it, m') -> other <> tag -> TU.map_get other m' = TU.map_get other m.
+Proof. exact (TUP.get_apid_for_tag_keeps_others m m' tag other a it). Qed.
+
+(* with the namespace table in front, and any sequence of calls *)
+Theorem C03_apid_for_tag_ns_no_panic (g : TU.nsmap) (ns : N) (tag : TU.bytes) : TU.blen tag <= usizemax ->
+  exists a it g', TU.get_apid_for_tag_ns g ns tag = Ok (a, it, g') /\ it <= TU.LAST_ITERATION.
+Proof. exact (TUP.get_apid_for_tag_ns_ok g ns tag). Qed.
+Theorem C03_apid_sequence_no_panic (tags : list TU.bytes) (m : TU.amap) :
+  Forall (fun t => TU.blen t <= usizemax) tags ->
+  exists r m', TU.apids_of_tags m tags = Ok (r, m') /\ length r = length tags.
+Proof. exact (TUP.apids_of_tags_ok tags m). Qed.
+
+(* before fix 7a6b3d3 (no bound on the iteration): for EVERY map and tag, if the candidates of the iterations 0..9999
+   are all in use, the five-digit iterations repeat the candidates 1000..6553 and the loop runs until `iteration += 1`
+   overflows the u16 -- a panic in a debug build, no return at all otherwise *)
+Theorem C03_apid_before_fix_panics_when_exhausted (m : TU.amap) (tag : TU.bytes) : TU.blen tag <= usizemax ->
+  TU.map_get tag m = None ->
+  (forall it a, it <= 9999 -> TU.candidate (TU.trim tag) it = Ok a -> TU.values_contain m a = true) ->
+  forall fuel, (N.to_nat 65536 <= fuel)%nat -> TU.get_apid_for_tag_before_fix fuel m tag = Panic MachInt.site_add_overflow.
+Proof. exact (TUP.before_fix_panics_when_exhausted m tag). Qed.
+(* ... and such a map exists: tag "x", its 10000 candidates held by the tags "xx0" .. "xx9999" (on the real code: the
+   corpus witness w_apid_exhausted) *)
+Theorem C03_apid_before_fix_refuted :
+  exists (m : TU.amap) (tag : TU.bytes), TU.utf8_valid tag = true /\ TU.map_get tag m = None /\
+    (forall fuel, (N.to_nat 65536 <= fuel)%nat -> TU.get_apid_for_tag_before_fix fuel m tag = Panic MachInt.site_add_overflow) /\
+    (forall fuel r, TU.get_apid_for_tag_before_fix fuel m tag <> Ok r).
+Proof. exact TUP.get_apid_for_tag_before_fix_panics. Qed.
+(* before fix bf09881 the '_' / capital counters were u32: a (valid UTF-8) tag of 2^32 underscores overflows them *)
+Theorem C03_apid_count_u32_before_fix_refuted :
+  exists t : TU.bytes, TU.utf8_valid t = true /\ TU.blen t = 4294967296 /\
+    TU.count_chk_gen u32max TU.is_underscore (TU.chars t) = Panic MachInt.site_add_overflow.
+Proof. exact TUP.count_u32_before_fix_panics. Qed.
+
+(* hex_to_bytes: for EVERY &str no panic -- `s.len() - 2` is guarded, every `&s[i..i + 2]` is in range and on char
+   boundaries (the string is ASCII there) -- and the value: Some exactly for ASCII strings made of groups of two
+   characters that u8::from_str_radix(_, 16) accepts, separated by ONE character that is not looked at *)
+Theorem C03_hex_to_bytes_spec (s : TU.bytes) : TU.blen s + 2 <= usizemax ->
+  TU.hex_to_bytes s = Ok (if TU.all_ascii s then TUP.hex_groups s else None).
+Proof. exact (TUP.hex_to_bytes_spec s). Qed.
+Theorem C03_hex_to_bytes_no_panic (s : TU.bytes) : TU.blen s + 2 <= usizemax -> exists o, TU.hex_to_bytes s = Ok o.
+Proof. exact (TUP.hex_to_bytes_total s). Qed.
+(* what from_str_radix accepts for a group: two hex digits of either case, or '+' and ONE hex digit *)
+Theorem C03_hex_group_accepted (a b v : N) :
+  TU.u8_from_str_radix16 [a; b] = Some v <->
+  (exists x y, TU.hex_digit a = Some x /\ TU.hex_digit b = Some y /\ v = 16 * x + y) \/
+  (a = 43 /\ exists y, TU.hex_digit b = Some y /\ v = y).
+Proof. exact (TUP.u8_radix16_pair a b v). Qed.
+
+(* non-vacuity / the model is not degenerate: the tags "Abcd", "Abcd " (trailing blank), "éé" and "  " in one
+   namespace get "Abcd", "Abc1", "NoAs" and " " (iterations 0, 1, 0, 0); "+f ab" is the bytes 0x0f 0xab; "a b" is None *)
+Example C03_text_utils_nonvacuous :
+  TU.apids_of_tags [] [[65; 98; 99; 100]; [65; 98; 99; 100; 32]; [195; 169; 195; 169]; [32; 32]] =
+    Ok ([1096967012; 1096966961; 1315914099; 536870912],
+        [([32; 32], 536870912); ([195; 169; 195; 169], 1315914099); ([65; 98; 99; 100; 32], 1096966961); ([65; 98; 99; 100], 1096967012)]) /\
+  TU.hex_to_bytes [43; 102; 32; 97; 98] = Ok (Some [15; 171]) /\ TU.hex_to_bytes [97; 32; 98] = Ok None.
+Proof. vm_compute. repeat split; reflexivity. Qed.
+
+(* high iterations are reached from the EMPTY map by calls of the function itself: after the 1000 tags Wxyz, Wxy1..Wxy9,
+   Wx10..Wx99, W100..W999 (each gets itself as apid) the tag "Wxyze" runs through the candidates Wxyz, Wxy1, .., W999 and
+   gets "1000" at iteration 1000 (evaluated; the exhausted family of 10 000 tags is evaluated by the thorough tier) *)
+Example C03_apid_iteration_1000_reachable :
+  let num := fun (pre : TU.bytes) (lo : N) (n : nat) => map (fun k => pre ++ TU.dec (lo + N.of_nat k)) (seq 0 n) in
+  let tags := [[87; 120; 121; 122]] ++ num [87; 120; 121] 1 9%nat ++ num [87; 120] 10 90%nat ++ num [87] 100 900%nat in
+  match TU.apids_of_tags [] tags with
+  | Ok (r, m) => length r = 1000%nat /\
+                 exists m', TU.get_apid_for_tag m [87; 120; 121; 122; 101] = Ok (TU.c4_of (TU.dec 1000), 1000, m')
+  | _ => False
+  end.
+Proof. vm_compute. split; [reflexivity|eexists; reflexivity]. Qed.
+
+(* ------------------------------------------------------------------ (A''') time / length arithmetic of the converters *)
+(* asc, parse_signed_time_str: for every &str of the shape the regexes capture (at most one leading '-'; digit strings
+   of ANY length, non-ASCII digits: parse errors become 0): no panic, and the value can be negated *)
+Theorem C03_asc_parse_time_no_panic (ts : TU.bytes) :
+  TU.utf8_valid ts = true -> TU.blen ts + 1 <= usizemax -> TTP.ts_shape ts ->
+  exists v, TT.parse_signed_time_str ts = Ok v /\ (TT.i64min < v <= TT.i64max)%Z.
+Proof. exact (TTP.parse_signed_time_str_total ts). Qed.
+(* the shape IS needed: "--9223372036854775808.0" makes the unary minus overflow *)
+Theorem C03_asc_parse_time_needs_shape :
+  exists ts, TU.utf8_valid ts = true /\ ~ TTP.ts_shape ts /\ TT.parse_signed_time_str ts = Panic TT.site_neg_overflow.
+Proof. exact TTP.parse_signed_time_str_needs_shape. Qed.
+Theorem C03_asc_timestamp_dms_no_panic (st : TT.asc_st) (ts : BinNums.Z) : (TT.i64min < ts)%Z ->
+  exists d, TT.timestamp_dms_from st ts = Ok d.
+Proof. exact (TTP.timestamp_dms_from_total st ts). Qed.
+Theorem C03_asc_date_line_no_panic (st : TT.asc_st) (reference : option N) (nt : BinNums.Z) :
+  exists st', TT.asc_date_line st reference nt = Ok st'.
+Proof. exact (TTP.asc_date_line_total st reference nt). Qed.
+(* one CAN line after the regex matched (captures on char boundaries, timestamp of its shape): whatever the line and the
+   data length field are: no panic, standard_header.len <= u16::MAX (the payload is cut), reception time in u64 *)
+Theorem C03_asc_can_line_no_panic (st : TT.asc_st) (line ts_s d_s : TU.bytes) (ts_a ts_b d_a d_b : N) :
+  TU.str_slice line ts_a ts_b = Ok ts_s -> TU.utf8_valid ts_s = true -> TTP.ts_shape ts_s ->
+  TU.str_slice line d_a d_b = Ok d_s -> d_b <= TU.blen line -> TU.blen line + 200000 <= usizemax ->
+  exists st' rt tdms len data, TT.asc_can_line st line ts_a ts_b d_a d_b = Ok (st', (rt, tdms, len, data)) /\
+    len <= u16max /\ rt <= u64max /\ TU.blen data + 4 + TT.LEN_WO_PAYLOAD <= u16max.
+Proof. exact (TTP.asc_can_line_total st line ts_s d_s ts_a ts_b d_a d_b). Qed.
+(* `len` of the GET_LOG_INFO message of a BusMapping line / a new logcat or genlog tag: never above u16::MAX *)
+Theorem C03_info_msg_len_no_overflow (n : N) : exists l, TT.info_msg_len n = Ok l /\ l <= u16max.
+Proof. exact (TTP.info_msg_len_ok n). Qed.
+(* logcat, parse_time_str and one monotonic line: for EVERY &str: no panic; reception time <= i64::MAX *)
+Theorem C03_logcat_parse_time_no_panic (ts : TU.bytes) : TU.utf8_valid ts = true -> TU.blen ts + 1 <= usizemax ->
+  exists v, TT.parse_time_str ts = Ok v /\ v <= u64max.
+Proof. exact (TTP.parse_time_str_total ts). Qed.
+Theorem C03_logcat_line_no_panic (start : N) (ts : TU.bytes) : TU.utf8_valid ts = true -> TU.blen ts + 1 <= usizemax ->
+  exists rt tdms, TT.logcat_mono_line start ts = Ok (rt, tdms) /\ rt <= TT.i64max_n /\ tdms <= u32max.
+Proof. exact (TTP.logcat_mono_line_total start ts). Qed.
+(* the operations the fixes 21ad8ac, 9d724de, be7e6d2 removed do panic on the witnesses of those defects *)
+Theorem C03_text_time_before_fixes_refuted :
+  TT.i64_mul_chk 99999999999999 1000000 = Panic MachInt.site_mul_overflow /\
+  mul_chk u64max 99999999999999 1000000 = Panic MachInt.site_mul_overflow /\
+  add_chk u16max TT.LEN_WO_PAYLOAD (trunc 16 (4 + 65510)) = Panic MachInt.site_add_overflow.
+Proof.
+  split; [exact TTP.asc_secs_mul_before_fix_refuted|]. split; [exact TTP.logcat_secs_mul_before_fix_refuted|exact TTP.u16_len_before_fix_refuted].
+Qed.
+(* non-vacuity: the line "   -0.985210 1  36f             Rx   d 5 f2 f7 fe ff 14 " (the code takes the data only if something
+   follows them) after a date line of 12.4.2022 with a
+   reference time 100 s earlier: reception time date - 0.98521 s, timestamp (1 000 000 - 9852) * 0.1 ms, len 22 + 4 + 5 *)
+Example C03_text_time_nonvacuous :
+  let line := [32; 32; 32; 45; 48; 46; 57; 56; 53; 50; 49; 48; 32; 49; 32; 32; 51; 54; 102; 32; 32; 32; 32; 32; 32; 32; 32; 32; 32; 32; 32; 32;
+               82; 120; 32; 32; 32; 100; 32; 53; 32; 102; 50; 32; 102; 55; 32; 102; 101; 32; 102; 102; 32; 49; 52; 32] in
+  exists st, TT.asc_date_line {| TT.a_date_us := 0; TT.a_offset_dms := 0; TT.a_first_neg := 0%Z |} (Some 1649753637000000) 1649753737000000%Z = Ok st /\
+    TT.asc_can_line st line 3 12 39 40 =
+      Ok ({| TT.a_date_us := 1649753737000000; TT.a_offset_dms := 1000000; TT.a_first_neg := (-985210)%Z |},
+          (1649753736014790, 990148, 31, [242; 247; 254; 255; 20])).
+Proof.
+  cbv zeta. exists {| TT.a_date_us := 1649753737000000; TT.a_offset_dms := 1000000; TT.a_first_neg := 0%Z |}.
+  split; vm_compute; reflexivity.
+Qed.
+
 (* ------------------------------------------------------------------ (B) re-exported no-panic theorems *)
 (* C01: both framing parsers, with every slice / index / expect / usize subtraction checked, never panic *)
 Theorem C03_reexport_parse_storage_never_panics (index : N) (data : Dlt.Frame.bytes) :
@@ -328,3 +510,28 @@ Print Assumptions C03_ctrl_context_step_keeps_invariant.
 Print Assumptions C03_ctrl_log_info_decode_encode.
 Print Assumptions C03_ctrl_sw_version_decode_encode.
 Print Assumptions C03_ctrl_nonvacuous.
+Print Assumptions C03_get_4digit_str_no_panic.
+Print Assumptions C03_apid_candidate_no_panic.
+Print Assumptions C03_apid_for_tag_terminates.
+Print Assumptions C03_apid_for_tag_idempotent.
+Print Assumptions C03_apid_for_tag_keeps_others.
+Print Assumptions C03_apid_for_tag_ns_no_panic.
+Print Assumptions C03_apid_sequence_no_panic.
+Print Assumptions C03_apid_before_fix_panics_when_exhausted.
+Print Assumptions C03_apid_before_fix_refuted.
+Print Assumptions C03_apid_count_u32_before_fix_refuted.
+Print Assumptions C03_hex_to_bytes_spec.
+Print Assumptions C03_hex_to_bytes_no_panic.
+Print Assumptions C03_hex_group_accepted.
+Print Assumptions C03_text_utils_nonvacuous.
+Print Assumptions C03_apid_iteration_1000_reachable.
+Print Assumptions C03_asc_parse_time_no_panic.
+Print Assumptions C03_asc_parse_time_needs_shape.
+Print Assumptions C03_asc_timestamp_dms_no_panic.
+Print Assumptions C03_asc_date_line_no_panic.
+Print Assumptions C03_asc_can_line_no_panic.
+Print Assumptions C03_info_msg_len_no_overflow.
+Print Assumptions C03_logcat_parse_time_no_panic.
+Print Assumptions C03_logcat_line_no_panic.
+Print Assumptions C03_text_time_before_fixes_refuted.
+Print Assumptions C03_text_time_nonvacuous.
